@@ -273,4 +273,98 @@ theorem offset_compose (c : Coll) (h : c.isSeq = true) (m n : Int) :
   congr 2
   omega
 
+/-- whatever `>>`, `++` and `\` return satisfies the invariants `call_refines` asks for, so the results
+can be called, transformed, concatenated and offset again under the same theorems -/
+theorem results_wf (f : F) (a b : Coll) (n : Arg) (r : Coll) (ha : a.wf = true)
+    (h : Impl.seqArrow f a = .ok r ∨ Impl.concat a b = .ok r ∨ Impl.offset n a = .ok r) : r.wf = true := by
+  have hs : ∀ rs off, (Impl.newOffsetString rs off).wf = true := fun rs off => by
+    unfold Impl.newOffsetString; split <;> rfl
+  have hb : ∀ bs off, (Impl.newOffsetBytes bs off).wf = true := fun bs off => by
+    unfold Impl.newOffsetBytes; split <;> rfl
+  have hv : ∀ off vs, (Impl.newOffsetArray off vs).wf = true := fun off vs => by
+    unfold Impl.newOffsetArray; simp only; split <;> rfl
+  rcases h with h | h | h
+  · by_cases hsug : a.isSugar = true
+    · cases a with
+      | one bk =>
+        cases bk with
+        | str off rs =>
+          simp only [Impl.seqArrow] at h
+          cases hl : Impl.strLoop f off rs <;> rw [hl] at h <;> simp at h
+          subst h; exact hs _ _
+        | bytes off bs =>
+          simp only [Impl.seqArrow] at h
+          cases hl : Impl.bytesLoop f off bs <;> rw [hl] at h <;> simp at h
+          subst h; exact hb _ _
+        | arr off vs =>
+          simp only [Impl.seqArrow] at h
+          cases hl : kmapM (fun i v => f (.num i) v) off vs <;> rw [hl] at h <;> simp at h
+          subst h; exact hv _ _
+        | dict m =>
+          simp only [Impl.seqArrow] at h
+          cases hl : Impl.dictLoop f (Impl.dictEntries m) <;> rw [hl] at h <;> simp at h
+          subst h
+          split
+          · rfl
+          · simp only [Coll.wf, Bucket.wf, decide_eq_true_eq]; exact nodup_newDict _
+        | _ => simp [Coll.isSugar] at hsug
+      | _ => simp [Coll.isSugar] at hsug
+    · rw [seqArrow_set f a (by simpa using hsug)] at h
+      cases hl : Impl.setLoop f a.members <;> rw [hl] at h <;> simp at h
+      subst h; exact wf_build _
+  · rw [concat_impl] at h
+    cases hl : Spec.shiftMembers (Int.ofNat (Impl.count a)) b.members <;> rw [hl] at h <;> simp at h
+    subst h; exact wf_build _
+  · cases n with
+    | frac m => simp [Impl.offset] at h
+    | val v =>
+      cases v with
+      | num i =>
+        cases a with
+        | empty => simp only [Impl.offset, Except.ok.injEq] at h; subst h; rfl
+        | true_ => simp [Impl.offset] at h
+        | union bs => simp [Impl.offset] at h
+        | one bk =>
+          cases bk <;> simp only [Impl.offset, Except.ok.injEq] at h <;>
+            first | (subst h; first | exact hs _ _ | exact hb _ _ | exact hv _ _) | simp at h
+      | tup _ => simp [Impl.offset] at h
+      | set _ => simp [Impl.offset] at h
+
+/-! ### the full-strength statements fail on today's code, and the hypotheses are satisfiable -/
+
+/-- `(2\'ab') ++ 'cd'`: the left operand has 2 elements at indices 2, 3, so 'cd' lands on 2, 3 too;
+the specification's set has four members, the string that is built two -/
+theorem concat_full_false : ¬ concat_full := by
+  intro h
+  exact absurd (h (.one (.str 2 [97, 98])) (.one (.str 0 [99, 100])) rfl rfl) (by decide)
+
+/-- a union holding two chars at index 0, mapped with the identity: the builder keeps one of them -/
+theorem seqarrow_full_false : ¬ seqarrow_full := by
+  intro h
+  exact absurd (h (fun _ v => .ok v) (.union [.str 0 [97], .str 0 [98]]) rfl) (by decide)
+
+/-- non-vacuity: a well-formed keyed collection in a mixed representation (string with an offset and a
+hole, dictionary with a two-valued key); a relation whose `>>` result is representable; operands of `++`
+(offset right operand, different kinds) whose result is representable; a sequence for `\` -/
+local notation "ex_c" => Coll.union [Bucket.str (-2) [97, -1, 99], Bucket.dict [(V.num 1, [V.num 2, V.num 3])]]
+local notation "ex_r" => Coll.one (Bucket.rel false "a" [(V.num 5, V.num 1), (V.num 6, V.num 2)])
+local notation "ex_a" => Coll.one (Bucket.str 0 [97, 98])
+local notation "ex_b" => Coll.one (Bucket.arr 3 [some (V.num 1), none, some (V.num 2)])
+
+example :
+    Coll.wf ex_c = true ∧ Spec.keyed (Coll.den ex_c) = true ∧
+    (Impl.setCall ex_c (.val (.num (-2)))).value? = some (.num 97) ∧
+    (Impl.setCall ex_c (.val (.num (-1)))).value? = none ∧
+    (Impl.setCall ex_c (.val (.num 1))).value? = none := by decide
+
+example :
+    Coll.isSugar ex_r = false ∧ Coll.wf ex_r = true ∧
+    Spec.okRepresentable (Spec.mapVals (fun _ v => .ok v) (Coll.den ex_r)) = true ∧
+    (Spec.mapVals (fun _ v => .ok v) (Coll.den ex_r)).value?.isSome = true := by decide
+
+example :
+    Spec.okRepresentable (Spec.concat (Coll.den ex_a) (Coll.den ex_b)) = true ∧
+    (Spec.concat (Coll.den ex_a) (Coll.den ex_b)).value?.isSome = true ∧
+    (Coll.one (.bytes 1 [7])).isSeq = true ∧ (Coll.one (.dict [(.num 1, [.num 2])])).isSugar = true := by decide
+
 end Arrai.C05.Theorems
